@@ -731,13 +731,19 @@ def _op_kc_add_paths(ctx, W, st):
             for t in texts:
                 k.kc.add_keys_path([node], t)
         for (hc, hu, m) in rows:
-            k.pending[hc] = (st["src"], m)
+            # the table is keyed by hash160 and rows go in with "insert or ignore": a key already registered (under
+            # whatever root) keeps its first row
+            if hc in k.uncertain:
+                pass      # (whether an earlier, faulted insert left a row is unknown: so is who owns the row now)
+            elif hc not in k.committed and hc not in k.pending:
+                k.pending[hc] = (st["src"], m)
             k.known.append((hc, hu, m, st["src"]))
     except sqlite3.OperationalError:
         ctx.fault("db_statement_error")
         ctx.nontrivial = True
         for (hc, hu, m) in rows:
-            k.uncertain[hc] = (st["src"], m)
+            if hc not in k.committed and hc not in k.pending:
+                k.uncertain[hc] = (st["src"], m)
             k.known.append((hc, hu, m, st["src"]))
     except Exception as e:
         ctx.violate("C09", "keychain-raised", {"op": "add_paths", "exc": type(e).__name__, "msg": str(e)[:160]})
@@ -830,7 +836,9 @@ def _op_kc_lookup(ctx, W, st):
         ctx.violate("C09", "keychain-raised", {"op": "get", "exc": type(e).__name__, "msg": str(e)[:160]})
         return
     ctx.obs("kc_get", h.hex(), None if r is None else r[0])
-    have_secret = sid in k.secrets
+    stored = k.pending.get(hc) or k.committed.get(hc)
+    # (the row that answers is the first one registered for this key: it is that row's root that must be unlocked)
+    have_secret = (stored[0] if stored else sid) in k.secrets
     if r is not None:
         # whatever else happened, a resolved lookup must be the right key
         try:
